@@ -75,7 +75,7 @@ def main():
     for f in copied:
         os.remove(f)
     sh("git checkout -- . ; git clean -fdq -e target")
-    demo_ok = rc_with != 0 and rc_without == 0 and "test result: FAILED" in o_with
+    demo_ok = rc_with != 0 and rc_without == 0  # (a demo may also fail by aborting)
     print(f"{name}: base={head} rebased={rebased} tests_with_patch={'PASS' if tests_ok else 'FAIL'}({passed}) demo_with={rc_with} demo_without={rc_without} => {'CONFIRMED' if tests_ok and demo_ok else 'REJECTED'}")
     if not (tests_ok and demo_ok):
         print(o[-400:] if not tests_ok else (o_with[-300:] + "\n---\n" + o_without[-300:]))
